@@ -304,10 +304,14 @@ class OpGen:
                       if f != in_fragment and relation(self.schema, parent, self.schema.type_map[self.fragments[f]["type"]])]
         if applicable and d.bool(max(self.frag_p, 0.8) if in_fragment is not None else self.frag_p):
             chosen_frags = d.sample(applicable, d.int(1, 3))
-            if d.bool(0.3):
-                # also try one dependency of a chosen fragment at the same level (fragment "triangle")
+            if d.bool(0.4):
+                # also try one dependency of a chosen fragment at the same level (fragment "triangle"), half of the time
+                # one the fragment only uses in a nested field
+                nested_only = d.bool(0.5)
                 for f0 in list(chosen_frags):
                     deps0 = sorted(self.fragments[f0]["alldeps"] & set(applicable))
+                    if nested_only:
+                        deps0 = sorted((self.fragments[f0]["nested_direct"] - self.fragments[f0]["inh"]) & set(applicable)) or deps0
                     if deps0:
                         chosen_frags.append(d.choice(deps0))
                         break
@@ -356,13 +360,20 @@ class OpGen:
                 # KF-C01-9 (inconsistent MRO) needs a base class listed BEFORE a class derived from it; bases are
                 # listed in sorted fragment-name order
                 def _bad_order(a, b):
-                    base, derived = (a, b) if a in self.fragments[b]["alldeps"] else ((b, a) if b in self.fragments[a]["alldeps"] else (None, None))
+                    # class derivation only: a fragment spread at the TOP level of another one as a base class; a mention
+                    # in a nested field creates no base class
+                    base, derived = (a, b) if a in self.fragments[b]["inh"] else ((b, a) if b in self.fragments[a]["inh"] else (None, None))
                     return base is not None and base < derived
                 if mode == "mixin" and any(_bad_order(o, fname) for o in spread_here if self.frag_mode_here.get(o) == "mixin") \
                         and not d.enabled("sel.spread_redundant_dep"):
                     continue
                 if mode == "mixin" and any(o in fr["alldeps"] or fname in self.fragments[o]["alldeps"] for o in spread_here):
                     d.tag("op.fragment_triangle")
+                if mode == "mixin" and any(
+                    (o in fr["alldeps"] and o not in fr["inh"]) or (fname in self.fragments[o]["alldeps"] and fname not in self.fragments[o]["inh"])
+                    for o in spread_here if self.frag_mode_here.get(o) == "mixin"
+                ):
+                    d.tag("op.spread_with_nested_mention")
                 if rel == "same" and is_abstract_type(parent) and fr["narrowing_deep"] and not fr["inline"] \
                         and not d.enabled("sel.spread_same_abs_with_narrowing"):
                     continue
@@ -418,6 +429,11 @@ class OpGen:
                         d.tag("op.fragment_chain3")
                 if in_fragment is not None:
                     self._cur_deps.add(fname)
+                    if depth == 1 and inline_depth == 0 and mode == "mixin":
+                        self._cur_inh.add(fname)
+                        self._cur_inh.update(fr["inh"])
+                    elif depth - inline_depth > 1:
+                        self._cur_nested.add(fname)
                     if self._guard is not None:
                         self._cur_guarded.add(self._guard)
                     self._cur_guarded.update(fr.get("guards", ()))
@@ -434,6 +450,11 @@ class OpGen:
         return "{ " + " ".join(items) + " }"
 
     # ------------------------------------------------------------ definitions
+    def _recursive_types(self):
+        roots = (self.desc.query, self.desc.mutation, self.desc.subscription)
+        return [c for c in self.composites if c.name not in roots and hasattr(c, "fields")
+                and any(get_named_type(f.type) is c for f in c.fields.values())]
+
     def gen_fragments(self, n):
         d = self.d
         names = pick_names(d, n, set(self._taken), [(1, FRAG_NAMES)])
@@ -445,6 +466,13 @@ class OpGen:
             for _ in range(d.int(2, min(3, len(names)))):
                 types.append(self.schema.query_type)
             d.tag("frag.root_family")
+        elif len(names) >= 2 and self._recursive_types() and d.bool(0.35):
+            # several fragments on one self-referential type: a later one can use an earlier one for the nested
+            # occurrence of the type only, and both can be spread side by side
+            t0 = d.choice(self._recursive_types())
+            for _ in range(d.int(2, min(3, len(names)))):
+                types.append(t0)
+            d.tag("frag.recursive_family")
         elif abstract and len(names) >= 2 and d.bool(0.6):
             # family mode: fragments on member objects first, then on the abstract type (which can spread them),
             # the rest anywhere - fragment graphs need related types to be interesting
@@ -468,6 +496,8 @@ class OpGen:
         for name, t in zip(names, types):
             self._taken.add(canon(name))
             self._cur_deps = set()
+            self._cur_inh = set()
+            self._cur_nested = set()
             self._cur_narrow = False
             self._cur_narrow_spread = False
             self._cur_narrow_targets = set()
@@ -492,6 +522,8 @@ class OpGen:
                 "keys": scope,
                 "deps": set(self._cur_deps),
                 "alldeps": alldeps,
+                "nested_direct": set(self._cur_nested),  # fragments written inside a nested field of this one
+                "inh": set(self._cur_inh),  # fragments whose classes this fragment's class derives from
                 "inline": bool(scope.get("__inl_direct")),  # a top-level inline fragment: always unpacked
             }
             me = self.fragments[name]
